@@ -75,6 +75,29 @@ def _leading_fact(repo):
     raise Untranslatable(f"Table._render: leading branch not recognised (mult={mult}, looped={looped})")
 
 
+def _flexmin_fact(repo):
+    """1 = the `flex_minimum` comprehension of Table._calculate_column_widths mentions the measured
+       range's `.minimum` (fixes/C07_ratio_column_minimum.diff); 0 = only `(column.width or 1) + padding`."""
+    tree, _ = parse(repo, "rich/table.py")
+    fn = find_func(find_class(tree, "Table").body, "_calculate_column_widths")
+    found = None
+    for node in ast.walk(fn):
+        if isinstance(node, ast.Assign) and len(node.targets) == 1 and isinstance(node.targets[0], ast.Name) \
+                and node.targets[0].id == "flex_minimum":
+            if found is not None:
+                raise Untranslatable("Table._calculate_column_widths: flex_minimum assigned twice")
+            if not isinstance(node.value, ast.ListComp):
+                raise Untranslatable("Table._calculate_column_widths: flex_minimum is not a list comprehension")
+            uses_min = any(isinstance(n, ast.Attribute) and n.attr == "minimum" for n in ast.walk(node.value))
+            uses_width = any(isinstance(n, ast.Attribute) and n.attr == "width" for n in ast.walk(node.value))
+            if not uses_width:
+                raise Untranslatable("Table._calculate_column_widths: flex_minimum no longer uses column.width")
+            found = 1 if uses_min else 0
+    if found is None:
+        raise Untranslatable("Table._calculate_column_widths: flex_minimum not found")
+    return found
+
+
 @generator("BoxChars.v")
 def gen_boxes(repo):
     boxes = _boxes(repo)
@@ -88,4 +111,6 @@ def gen_boxes(repo):
     text += "Definition BOXES : list (list Z * bool * list (list Z)) := [\n" + body + "\n].\n\n"
     text += "(* Table._render, `if leading:` branch: true = get_row(widths, \"mid\") * leading in ONE segment *)\n"
     text += f"Definition LEADING_MULTIPLIED : bool := {'true' if _leading_fact(repo) else 'false'}.\n"
+    text += "\n(* Table._calculate_column_widths: true = a ratio column's flexible minimum includes its measured minimum *)\n"
+    text += f"Definition FLEXMIN_MEASURED : bool := {'true' if _flexmin_fact(repo) else 'false'}.\n"
     return text
